@@ -120,6 +120,10 @@ def gen_case(rng, kind, stream):
         sh["vs"] = [vs[o] for o in order]
         sh["triangles"] = [[inv[a] for a in t] for t in tris]
         sh["subdivided"] = True
+    if kind == "mesh" and rng.random() < 0.35:
+        # MeshGraph does not require a consistent winding: flip some triangles (after make_convex_mesh
+        # in the worker when the triangles are not given here)
+        sh["flip_winding"] = rng.randrange(1, 2 ** 30)
     margin = None
     if rng.random() < 0.3:
         margin = rng.choice(sc.LATTICE) if stream in ("lattice", "exact") else 10 ** rng.uniform(-2, 1)
@@ -185,10 +189,10 @@ def face_normal_case(rng):
 
 
 def gen_cases(rng, tier):
-    per = 8 if tier == "quick" else 80
+    per = 5 if tier == "quick" else 60
     cases = [face_normal_case(rng) for _ in range(per)]
     for kind in sc.KINDS:
-        for stream, share in (("random", 1.0), ("lattice", 0.75), ("exact", 0.75)):
+        for stream, share in (("random", 1.0), ("lattice", 0.6), ("exact", 0.6), ("near", 0.3)):
             n = int(per * share * (2 if kind == "mesh" else 1))
             for _ in range(n):
                 cases.append(gen_case(rng, kind, stream))
@@ -213,7 +217,6 @@ def coq_case_expr(case, res):
         fresh = f"map (fun d => mql (mesh_queries {FUEL} T vs conn shc {i0} [d])) ds"
         fv = "ov3l (first_vertex_mesh T vs)"
         ce = f"v3l (center_mesh T vs {cm.fhex(float(len(sh['vs'])))})"
-        sh_model = "(match shortcut_connections vs with Some l => l | None => [] end)"
         sweep = "[]"
         if case.get("sweep"):
             starts = sc.clist(sc.cnat(i) for i in sorted(int(k) for k, _ in res["connections"]))
@@ -223,7 +226,12 @@ def coq_case_expr(case, res):
         sweep = sweep.replace(" T vs conn shc ", " mT mvs mconn mshc ").replace(" ds", " mds")
         fv = "ov3l (first_vertex_mesh mT mvs)"
         ce = f"v3l (center_mesh mT mvs {cm.fhex(float(len(sh['vs'])))})"
-        sh_model = "(match shortcut_connections mvs with Some l => l | None => [] end)"
+        used = sc.clist(sc.cnat(i) for i in sorted({int(i) for t in res["triangles"] for i in t}))
+        tris = sc.clist("(" + ", ".join(sc.cnat(i) for i in t) + ")" for t in res["triangles"])
+        # used_indices (the model of np.unique(triangles)) must give the sorted index set; the
+        # shortcut table is computed by the model from vertices and triangles alone
+        sh_model = (f"(match shortcut_connections mvs (used_indices {tris}) with Some l => l | None => [] end, "
+                    f"used_indices {tris})")
         return ([("mT", T), ("mvs", vs), ("mconn", conn), ("mshc", shc), ("mds", ds)],
                 f"({seq}, {fresh}, {fv}, {ce}, {sh_model}, {sweep})")
     items = []
@@ -365,6 +373,12 @@ def judge_case(case, r):
         return [f"raised {r['exc']}: {r.get('exc_msg', '')}"]
     for i, (d, s) in enumerate(zip(case["dirs"], r["sup"])):
         fails += judge_point(sh, case["margin"], d, s, L, f"support_function(dirs[{i}])")
+    for m in r.get("modified") or []:
+        fails.append(f"{m} (the shape a collider describes must not change by asking for support points)")
+    if r.get("again0") is not None and r["sup"]:
+        a, b = r["again0"], r["sup"][0]
+        if not (sc.finite(a) and sc.finite(b) and max(abs(x - y) for x, y in zip(a, b)) <= 1e-9 * L) and sh["kind"] != "mesh":
+            fails.append(f"support_function(dirs[0]) asked again after the other queries returns {a}, the first time {b}")
     if sh["kind"] == "mesh":
         for i, (d, s) in enumerate(zip(case["dirs"], r["fresh"])):
             f2 = judge_point(sh, case["margin"], d, s, L, f"fresh object support_function(dirs[{i}])")
@@ -495,8 +509,24 @@ def compare_case(case, r, m, stats):
                 elif unique_margin(sh, d) and midx != iidx:
                     diffs.append(f"sweep[{i}][start {start}]: vertex index model {midx} vs implementation {iidx} (d={d})")
             stats["sweep_queries"] = stats.get("sweep_queries", 0) + len(row_i)
+        shortcuts_model, used_model = shortcuts_model
+        used_impl = sorted({int(i) for t in r["triangles"] for i in t})
+        if used_model != used_impl:
+            diffs.append(f"mesh: model of np.unique(triangles) gives {used_model}, expected {used_impl}")
         if shortcuts_model != r["shortcuts"]:
             diffs.append(f"mesh shortcut_connections: model {shortcuts_model} vs implementation {r['shortcuts']}")
+        # the adjacency table (taken from the implementation because its iteration order is the
+        # implementation's) must be exactly the undirected edge graph of the triangles
+        edges = {}
+        for a, b, c3 in r["triangles"]:
+            for x, y in ((a, b), (b, c3), (a, c3)):
+                edges.setdefault(int(x), set()).add(int(y))
+                edges.setdefault(int(y), set()).add(int(x))
+        conn_impl = {int(k): [int(x) for x in v] for k, v in r["connections"]}
+        if {k: set(v) for k, v in conn_impl.items()} != edges or any(len(set(v)) != len(v) for v in conn_impl.values()):
+            diffs.append(f"mesh connections differ from the undirected edge graph of the triangles: {sorted(conn_impl.items())[:3]} ...")
+        if r["first_idx0"] != min(used_impl):
+            diffs.append(f"mesh first_idx after construction {r['first_idx0']} != min(triangles) {min(used_impl)}")
         model_pts = [add_margin(p, d, case["margin"]) for (_, p), d in zip(seq, case["dirs"])]
         model_idx = [i for i, _ in seq]
         if len(seq) != len(case["dirs"]):
